@@ -257,10 +257,10 @@ class LeanLock:
 
 
 def theorems_for(prop):
-    p = os.path.join(LEAN, "theorems.json")
+    p = os.path.join(LEAN, "theorems.d", prop + ".json")
     if not os.path.exists(p):
         return {}
-    return json.load(open(p)).get(prop, {})
+    return json.load(open(p))
 
 
 def strip_comments(src):
